@@ -15,7 +15,7 @@
      empty one at the START of compile (line "self.map = MultiTypeMap(...)"), before analysis and swap;
    * compile never resets _compiled; _update rebuilds only when _compiled is set; first_entry always compiles;
    * register_signature reads self.map again for every method; MultiTypeMap.register clears the entry
-     dictionary but neither the remembered errors nor the candidate-code sets;
+     dictionary, the remembered errors and the candidate-code sets (since the repair of KF-04);
    * rewritten bodies reach the table through a module global set at adaptation time ([s_cnmap]);
    * resolve writes: candidate codes (inside mro), then first-rank entry, then continuation entries keyed by the
      caller, remembered error at an ambiguous rank -- in that order, one dictionary write per step. *)
@@ -180,7 +180,7 @@ Section Machine.
     | PComp (CReg d rest) a =>                             (* self.map.register(sig, fn): clear(); add *)
         let t := s_map s in
         let T := tbl s t in
-        (set_tbl s t {| t_regs := t_regs T ++ [d]; t_dict := []; t_errs := t_errs T; t_all := t_all T |},
+        (set_tbl s t {| t_regs := t_regs T ++ [d]; t_dict := []; t_errs := []; t_all := [] |},
          at_pc l (fill_next rest a))
     | PComp CFlag a =>                                     (* self._compiled = True *)
         ({| s_entry := s_entry s; s_compiled := true; s_map := s_map s; s_cnmap := s_cnmap s;
